@@ -162,6 +162,35 @@ inline std::string op_describe (const Op& o)
 
 typedef std::vector<Op> History;
 
+// Can the constexpr interpreter (engine/ce.hpp) replay this operation?
+inline bool ce_supported (const Op& o)
+{
+  if (o.f1 || o.f2 || o.kind == OP_AT)
+    return false;
+  if (o.kind == OP_INS_RANGE || o.kind == OP_ASSIGN_RANGE || o.kind == OP_APPEND_RANGE || o.kind == OP_CTOR_RANGE)
+  {
+    int it = o.it % 100;
+    return it == IT_STREAM || it == IT_FWD || it == IT_PTR || it == IT_CPTR || it == IT_SVIT
+        || it == IT_MV_FWD || it == IT_MV_PTR;
+  }
+  return true;
+}
+
+inline void emit_trace (std::FILE *f, const std::vector<Op>& h, const Op& op)
+{
+  for (std::size_t k = 0; k < h.size (); ++k)
+    if (! ce_supported (h[k]))
+      return;
+  if (! ce_supported (op))
+    return;
+  for (std::size_t k = 0; k <= h.size (); ++k)
+  {
+    const Op& o = (k < h.size ()) ? h[k] : op;
+    std::fprintf (f, "%s%d:%d:%d:%d:%d", k ? " " : "", o.kind, o.p, o.n, o.i, o.it % 100);
+  }
+  std::fprintf (f, "\n");
+}
+
 inline std::string history_to_text (const History& h)
 {
   std::string s;
